@@ -42,6 +42,7 @@ type c19RetryPlan struct {
 	TableMs   []int     `json:"table_ms"`
 	Steps     []c19Step `json:"steps"`
 	PreCancel bool      `json:"pre_cancel,omitempty"` // context cancelled before doWithRetry is called
+	HorizonMs int       `json:"horizon_ms,omitempty"` // > 0: maxRetryDuration shrunk to this (scratch copy of the repository, see c19_horizon.go)
 }
 
 type c19Att struct {
@@ -256,7 +257,12 @@ func c19RetryWire(kind int, p c19RetryPlan, o c19RetryObs) string {
 	for _, ms := range p.TableMs {
 		e.Z(int64(time.Duration(ms) * time.Millisecond))
 	}
-	e.Z(int64(certmagic.VerifMaxRetryDuration))
+	if p.HorizonMs > 0 {
+		e.Z(int64(time.Duration(p.HorizonMs) * time.Millisecond))
+	} else {
+		e.Z(int64(certmagic.VerifMaxRetryDuration))
+	}
+	e.Bool(p.HorizonMs > 0)
 	if o.CancelNs >= 0 {
 		e.Bool(true).Z(o.CancelNs)
 	} else {
@@ -492,6 +498,11 @@ func c19JobsWire(p c19JobPlan, snaps []c19JobSnap) string {
 func c19RandomJobPlan(r *rand.Rand) c19JobPlan {
 	p := c19JobPlan{Max: 1 + r.Intn(3)}
 	names := []string{"", "renew_a", "renew_b", "renew_c"}
+	if r.Intn(3) == 0 {
+		// more names than workers: the queue holds several named jobs
+		names = append(names, "renew_d", "renew_e", "renew_f")
+		p.Max = 1 + r.Intn(4)
+	}
 	n := 5 + r.Intn(14)
 	for i := 0; i < n; i++ {
 		if r.Intn(100) < 58 {
@@ -501,6 +512,15 @@ func c19RandomJobPlan(r *rand.Rand) c19JobPlan {
 		}
 	}
 	return p
+}
+
+func nameOfJob(snaps []c19JobSnap, id int) string {
+	for _, s := range snaps {
+		if s.Tag == 0 && s.ID == id {
+			return s.Name
+		}
+	}
+	return ""
 }
 
 // ---------------------------------------------------------------- (c) CA selection
@@ -529,7 +549,7 @@ func c19CASelection(w *emit.Writer) {
 				continue
 			}
 			e := &emit.Enc{}
-			e.Int(3).Str(o.CA).Str(o.TestCA).Bool(strings.Contains(o.CA, "://")).Str(o.Dir0).Str(o.Dir1).Bool(o.Using0).Bool(o.Using1)
+			e.Int(3).Str(ca).Str(tc).Str(o.CA).Str(o.TestCA).Bool(strings.Contains(o.CA, "://")).Str(o.Dir0).Str(o.Dir1).Bool(o.Using0).Bool(o.Using1)
 			w.Hist("kind=ca-selection")
 			w.Hist(fmt.Sprintf("ca_selection: test_ca_set=%v same_as_ca=%v", o.TestCA != "", o.CA == o.TestCA))
 			w.Add(emit.Case{Desc: map[string]any{"kind": "ca-selection", "class": "ca-selection"},
@@ -556,6 +576,9 @@ func runC19(tier string, seed int64, outdir string, replay string) error {
 		term := p.Steps[len(p.Steps)-1].Out
 		if p.PreCancel {
 			class = "retry-precancelled"
+		}
+		if p.HorizonMs > 0 {
+			class = "retry-horizon"
 		}
 		pj, _ := json.Marshal(p)
 		w.Hist("kind=" + class)
@@ -584,6 +607,39 @@ func runC19(tier string, seed int64, outdir string, replay string) error {
 			}
 			w.Hist(fmt.Sprintf("jobs: op=%s", []string{"submit", "finish-ok", "finish-err", "finish-panic"}[s.Tag*(1+s.Kind)]))
 		}
+		// a named submission that changed nothing: was the holder of the name queued or running?
+		for i, sn := range snaps {
+			if sn.Tag != 0 || sn.Name == "" || i == 0 {
+				continue
+			}
+			prev := snaps[i-1]
+			held := false
+			for _, n := range prev.Names {
+				held = held || n == sn.Name
+			}
+			if !held {
+				continue
+			}
+			inQueue := false
+			for _, n := range prev.Queue {
+				inQueue = inQueue || n == sn.Name
+			}
+			if inQueue {
+				w.Hist("jobs: duplicate_while_queued")
+			} else {
+				w.Hist("jobs: duplicate_while_running")
+			}
+		}
+		for i, sn := range snaps {
+			if sn.Tag == 1 && sn.Kind == 2 && i+1 < len(snaps) {
+				for _, later := range snaps[i+1:] {
+					if later.Tag == 0 && later.Name != "" && later.Name == nameOfJob(snaps, sn.ID) {
+						w.Hist("jobs: name_resubmitted_after_panic")
+						break
+					}
+				}
+			}
+		}
 		seen := map[string]int{}
 		for _, op := range p.Ops {
 			if op.Op == "submit" && op.Name != "" {
@@ -609,6 +665,37 @@ func runC19(tier string, seed int64, outdir string, replay string) error {
 			return err
 		}
 		switch k, _ := rc.Desc["kind"].(string); {
+		case strings.HasPrefix(k, "e2e-"):
+			var p c19E2EPlan
+			if err := json.Unmarshal(rc.In, &p); err != nil {
+				return err
+			}
+			c19E2E(w, []c19E2EPlan{p})
+		case k == "jobs-concurrent-submit":
+			var p c19BurstPlan
+			if err := json.Unmarshal(rc.In, &p); err != nil {
+				return err
+			}
+			// a failure here needs a race: up to 40 runs, emit the first one that looks wrong
+			// (a name accepted twice, or fewer/more starts than accepted jobs), else the last
+			for i := 0; i < 40; i++ {
+				o := c19RunBurst(p)
+				seen, bad := map[string]bool{}, false
+				acc := 0
+				for _, sb := range o.Order {
+					if sb.Accepted {
+						acc++
+						if sb.Name != "" && seen[sb.Name] {
+							bad = true
+						}
+						seen[sb.Name] = true
+					}
+				}
+				if bad || len(o.FinalStarted) != acc || len(o.Running)+len(o.Queue) != acc || i == 39 {
+					c19BurstEmit(w, p, o)
+					break
+				}
+			}
 		case k == "jobs":
 			var p c19JobPlan
 			if err := json.Unmarshal(rc.In, &p); err != nil {
@@ -624,6 +711,11 @@ func runC19(tier string, seed int64, outdir string, replay string) error {
 			var iv []time.Duration
 			for _, ms := range p.TableMs {
 				iv = append(iv, time.Duration(ms)*time.Millisecond)
+			}
+			if p.HorizonMs > 0 {
+				// the horizon is a constant of the library: scratch copy, separate process
+				c19Horizon(w, [][]c19RetryPlan{{p}}, emitRetry)
+				return nil
 			}
 			restore := certmagic.VerifSetRetryIntervals(iv)
 			defer restore()
@@ -722,6 +814,8 @@ func runC19(tier string, seed int64, outdir string, replay string) error {
 			emitRetry(batch[i], res[i])
 		}
 	}
+	// ---- (a') the horizon: maxRetryDuration shrunk in a scratch copy of the repository (separate process)
+	c19Horizon(w, c19HorizonPlans(tier, r), emitRetry)
 	// ---- (b) job manager histories
 	nJobs := 300
 	if tier == "thorough" {
@@ -747,12 +841,15 @@ func runC19(tier string, seed int64, outdir string, replay string) error {
 	for i := range plans {
 		emitJobs("random", plans[i], snaps[i])
 	}
-	// ---- (c) CA selection (what can be reached without an ACME server)
+	// ---- (b') submissions from many goroutines at once
+	c19Burst(w, c19BurstPlans(tier, r))
+	// ---- (c) CA selection, and the test-CA logic end to end against two mock ACME CAs
 	c19CASelection(w)
+	c19E2E(w, c19E2EPlans(tier, r))
 	w.Meta.Notes = append(w.Meta.Notes,
 		"retry instants are nanoseconds since just before doWithRetry / ManageAsync was called; the model is driven by the observed call durations and timer latencies (0 <= latency <= 3 s)",
-		"maxRetryDuration (30 days) is not reached by any run; the give-up branch is a statement about the model only",
-		"Issue's second (production) order after a test-CA success needs an ACME server; here only newACMEClient's directory choice and usingTestCA are compared")
+		"class retry-horizon: runs in a scratch copy of the repository made by the harness, in which `const maxRetryDuration` is turned into a variable and set to 100-200 ms by an in-package test (go test, separate process), so that 'final attempt; giving up' is reached; the repository itself and all other classes have the 30-day constant of the source",
+		"e2e cases: the real ACMEIssuer against two in-process mock ACME CAs; which CA received an order and which CA signed a certificate are observed at the CAs / by signature check")
 	w.Meta.Extra = map[string]any{"retry_cases_skipped_stalled": skippedStalled, "retry_tables_ms": "[30] [30 60 120] [40 40 80 150 150] (+2 in thorough)", "max_retry_duration_ns": int64(certmagic.VerifMaxRetryDuration)}
 	return nil
 }
